@@ -125,7 +125,7 @@ func (s StmtRef) IsStatement() bool {
 	}
 	// parents that hold statements: functions, blocks, clauses; not struct/interface declarations
 	pf := strings.TrimSpace(s.Parent.Pre[0].Text)
-	if strings.HasPrefix(pf, "type ") || strings.HasPrefix(pf, "select {") || strings.HasPrefix(pf, "switch {") {
+	if strings.HasPrefix(pf, "type ") || strings.HasPrefix(pf, "select {") || strings.HasPrefix(pf, "switch {") || strings.HasPrefix(pf, "var (") || strings.HasPrefix(pf, "const (") {
 		return false
 	}
 	return true
